@@ -20,6 +20,29 @@ pub fn verif_advance_ms(ms: u64) {
 pub fn verif_now_ms() -> u64 {
     NOW_MS.with(|c| c.get())
 }
+thread_local! {
+    static YIELD: std::cell::RefCell<Option<Box<dyn FnMut()>>> = std::cell::RefCell::new(None);
+}
+/// What happens when the code under test yields inside a bounded wait loop
+/// (`P2PSession::advance_frame_with_wait_timeout`).  Without a callback the clock advances 1 ms.
+pub fn verif_set_yield(f: Option<Box<dyn FnMut()>>) {
+    YIELD.with(|y| *y.borrow_mut() = f);
+}
+pub fn verif_yield() {
+    let f = YIELD.with(|y| y.borrow_mut().take());
+    match f {
+        Some(mut f) => {
+            f();
+            YIELD.with(|y| {
+                let mut y = y.borrow_mut();
+                if y.is_none() {
+                    *y = Some(f);
+                }
+            });
+        }
+        None => verif_advance_ms(1),
+    }
+}
 pub fn verif_epoch_millis() -> u128 {
     EPOCH_BASE_MS + verif_now_ms() as u128
 }
